@@ -19,6 +19,20 @@ CLAIMS = {
          "plus injected lookup-time faults on the real backends (closed DB, corrupted and truncated records, removed directory) "
          "compared with the model and with the property's own wording.",
          "Coq proof over the store model + fault-injection correspondence", "DESIGN.md §3 C09", ""),
+ "C06": ("Coq theorem C06_main: for every document of the profile (any number of entries, any leaf contents, optional fields in "
+         "every combination), every library oracle and EVERY pair of chunk schedules, the reader model run on the DER encoding emits "
+         "exactly the reference events and hashes exactly the DER tbsCertList (induction over the entry list; C06_sched, C06_digest, "
+         "C06_reject_critical are corollaries); the model is tied to the real reader by ~330 generated CRLs (all algorithms, widths, "
+         "length classes, DER/PEM-LF/PEM-CRLF, issuer-padding sweeps across the 4096-byte window and the PEM line phase) evaluated in "
+         "both and compared event by event, plus a field-by-field comparison with encoding/asn1's whole-document decoding.",
+         "Coq proof by induction over entries and chunk schedules + byte-level correspondence with the real reader", "DESIGN.md §3 C06",
+         "the PEM line filter and base64 step are modelled and compared on every PEM case but the PEM round-trip theorem is not proved; rejection of version>2 is covered by correspondence cases only."),
+ "C07": ("Coq theorem C07_total: for every byte stream, library oracle, chunk schedule and consumer failure point the reader model "
+         "never panics, never exhausts the fuel length+1 (no loop without consuming input) and never requests more than limit+17 bytes "
+         "at once; tied to the real reader by ~4000 hostile inputs (random, every truncation, every length field rewritten to 19 forms, "
+         "tag swaps, PEM framing faults, deep nesting) run in child processes under ulimit -v with a watchdog, outcome class compared with the model.",
+         "Coq proof of totality over all byte strings + hostile-input correspondence in sandboxed children", "DESIGN.md §3 C07",
+         "Go's encoding/asn1, bufio and base64 are an oracle of the model; that they themselves do not panic or over-allocate on the bounded slices they are given is exercised, not proved."),
  "C03": ("Coq theorems C03_table/C03_enabled/C03_iff/C03_effects over a model whose mode table, enable predicates and "
          "VerifyClientCertificate stage list are regenerated from the Go source on every run; plus an exhaustive 1536-cell "
          "table of real handshakes evaluated against the model (vm_compute) and against the property's own wording.",
